@@ -349,8 +349,10 @@ func (m *Middleware) fromCacheItem(item cacheItem, req *dns.Msg) (msg *dns.Msg) 
 	msg = &dns.Msg{}
 	msg.SetReply(req)
 
+	msg.Authoritative = item.msg.Authoritative
 	msg.AuthenticatedData = item.msg.AuthenticatedData
 	msg.RecursionAvailable = item.msg.RecursionAvailable
+	msg.Zero = item.msg.Zero
 	msg.Compress = item.msg.Compress
 	msg.Rcode = item.msg.Rcode
 
